@@ -274,6 +274,8 @@ class Runner:
         self.stall_s = stall_s
         self.results = []  # (session, result dict)
         self.group_time = {}  # (hosts, threads) -> [session seconds, cases]
+        self.symcache = {}    # crash addresses -> (where, backtrace text)
+        self.start_s = 45     # no first begin marker after that: launch failed
 
     def paths(self, s):
         b = os.path.join(self.workdir, "s%05d" % s.sid)
@@ -292,8 +294,13 @@ class Runner:
         env["OMPI_MCA_mpi_yield_when_idle"] = "1"
         env["OMPI_MCA_btl"] = "self,vader"
         env["OMPI_MCA_btl_vader_single_copy_mechanism"] = "none"
-        env["OMPI_MCA_orte_tmpdir_base"] = self.workdir
-        env["TMPDIR"] = self.workdir
+        # a private session directory per mpirun: concurrent mpiruns that
+        # share one orte_tmpdir_base trip over each other's session dirs
+        # (ORTE_ERROR_LOG session_dir.c, MPI_Init_thread stuck for minutes)
+        tmpd = fin[:-3] + ".tmp"
+        os.makedirs(tmpd, exist_ok=True)
+        env["OMPI_MCA_orte_tmpdir_base"] = tmpd
+        env["TMPDIR"] = tmpd
         env["GALOIS_DO_NOT_BIND_THREADS"] = "1"
         cmd = ["mpirun", "--allow-run-as-root", "--oversubscribe", "-np",
                str(s.hosts), self.exe, fin, fout, str(s.threads)]
@@ -388,7 +395,12 @@ class Runner:
         blk = t.split("*** End of error message ***")[0]
         addrs = re.findall(re.escape(os.path.basename(self.exe)) +
                            r"\(\+(0x[0-9a-f]+)\)", blk)
-        if addrs:
+        ck = tuple(addrs[:14])
+        if addrs and ck in self.symcache:
+            where, bt = self.symcache[ck]
+            if bt:
+                out.append(bt)
+        elif addrs:
             try:
                 r = subprocess.run(["addr2line", "-f", "-C", "-i", "-e",
                                     self.exe] + addrs[:14],
@@ -411,6 +423,8 @@ class Runner:
                         break
                 if fr:
                     out.append("backtrace: " + " <- ".join(fr))
+                self.symcache[ck] = (where, "backtrace: " + " <- ".join(fr)
+                                     if fr else "")
             except Exception:
                 pass
         if not out:
@@ -420,12 +434,61 @@ class Runner:
             out = keep[-4:]
         return dict(kind=kind, where=where, text=" | ".join(out)[-900:])
 
+    def stacks(self, s):
+        """Stalled session: stacks of all its ranks via gdb, reduced to the
+        frames inside the checked components.  -> (where, text)"""
+        fin = self.paths(s)[0]
+        pids = []
+        for d in os.listdir("/proc"):
+            if not d.isdigit():
+                continue
+            try:
+                cl = open("/proc/%s/cmdline" % d, "rb").read().split(b"\0")
+            except OSError:
+                continue
+            if len(cl) > 1 and cl[0].decode("utf-8", "replace") == self.exe \
+                    and fin.encode() in cl:
+                pids.append(int(d))
+        where, parts = "", []
+        for pid in sorted(pids)[:4]:
+            try:
+                r = subprocess.run(
+                    ["gdb", "-p", str(pid), "-batch", "-ex",
+                     "thread apply all bt 14"], stdout=subprocess.PIPE,
+                    stderr=subprocess.DEVNULL, text=True, timeout=40)
+            except Exception:
+                continue
+            cur, frames = None, {}
+            for l in r.stdout.splitlines():
+                m = re.match(r"Thread (\d+) ", l)
+                if m:
+                    cur = int(m.group(1))
+                    frames[cur] = []
+                    continue
+                m = re.match(r"#\d+\s+(?:0x[0-9a-f]+ in )?(.*?) \(.*\) at "
+                             r"(/repo/\S+)", l)
+                if m and cur is not None and re.search(
+                        r"/repo/(libcusp|libgluon|libdist|"
+                        r"libgalois/include/galois/graphs)/", m.group(2)):
+                    frames[cur].append("%s at %s" % (
+                        short_fn(m.group(1)),
+                        m.group(2).replace("/repo/", "")))
+            for th in sorted(frames):
+                if frames[th]:
+                    parts.append("pid %d thread %d: %s" % (
+                        pid, th, " <- ".join(frames[th][:3])))
+                    # thread 1 is the compute thread
+                    if th == 1 and not where:
+                        where = frames[th][0].split(" at ")[0]
+        return where, " || ".join(parts)[:1200]
+
     def cleanup(self, s):
         for p in self.paths(s):
             try:
                 os.unlink(p)
             except OSError:
                 pass
+        shutil.rmtree(self.paths(s)[0][:-3] + ".tmp", ignore_errors=True)
 
 
 def short_fn(fn):
@@ -504,11 +567,15 @@ def run_sessions(runner, sessions, deadline_at, on_result, on_end,
                     diag["text"] = "mpirun exit %s; %s" % (rc, diag["text"])
                     pending = on_end(s, False, diag) + pending
                 runner.cleanup(s)
-            elif time.time() - s.last_progress > runner.stall_s:
+            elif time.time() - s.last_progress > (
+                    runner.stall_s if s.seen_bytes else runner.start_s):
+                stalled = time.time() - s.last_progress
                 diag = runner.diagnose(s)
                 diag["kind"] = "hang"
-                diag["text"] = "no progress for %.0fs (killed); %s" % (
-                    time.time() - s.last_progress, diag["text"])
+                w, st = runner.stacks(s)
+                diag["where"] = w
+                diag["text"] = "no progress for %.0fs (killed); stacks: %s" % (
+                    stalled, st or diag["text"])
                 runner.kill(s)
                 running.remove(s)
                 account(s)
@@ -534,90 +601,98 @@ def c19_plan(tier):
     """-> list of (hosts, threads, case).  Everything listed is run; the tier
     decides how much of the cross product is listed."""
     plan = []
-    small2 = small_graphs(3, 2)
-    struct = structured_graphs()
+    small2 = small_graphs(3, 2)       # 73 graphs
+    struct = structured_graphs() + [fan_graph()]
     tiny = tiny_for_many_hosts()
     pols = list(POLICIES)
+    add = plan.append
     if tier == "quick":
-        # every small graph (n<=3, m<=2) x every policy x CSR/CSC x h in {2,3}
-        # with void data; uint32 data / symmetric / other read policies /
-        # h in {1,4} on subsets
+        # h=2: EVERY graph with n<=3, m<=2 x EVERY policy (CSR build)
+        for g in small2:
+            for pol in pols:
+                add((2, 1, make_case(g, pol, "csr", 0, "void")))
+        # h=3: every such graph x one policy per family
+        for g in small2:
+            for pol in ("oec", "iec", "hovc", "cvc", "ginger-o", "sugar-o"):
+                add((3, 1, make_case(g, pol, "csr", 0, "void")))
+        # CSC (transposed) builds: every third graph x every policy
+        for g in small2[::3]:
+            for pol in pols:
+                add((2, 1, make_case(g, pol, "csc", 0, "void")))
+        # structured graphs, uint32 edge data, 2 threads per host
         for h in (2, 3):
-            for g in small2:
-                for pol in pols:
-                    for out in ("csr", "csc"):
-                        plan.append((h, 1, make_case(g, pol, out, 0, "void")))
-        sub = [g for g in small2 if g.n == 3 and len(g.edges) == 2][::3]
-        for h in (2, 3):
-            for g in sub + struct:
-                for pol in pols:
-                    for out in ("csr", "csc"):
-                        plan.append((h, 2, make_case(g, pol, out, 0, "u32")))
             for g in struct:
                 for pol in pols:
-                    for out in ("csr", "csc"):
-                        plan.append((h, 1, make_case(g, pol, out, 0, "void")))
-            for g in [x.symmetrised() for x in sub[:6] + struct]:
-                for pol in SYM_CLASSES:
-                    plan.append((h, 1, make_case(g, pol, "csr", 1, "u32")))
-            for g in struct:
-                for pol in ("oec", "cvc", "ginger-o", "sugar-o"):
-                    for read in (0, 2):
-                        plan.append((h, 1, make_case(g, pol, "csr", 0, "u32",
-                                                     read=read)))
-                for pol in ("ginger-o", "fennel-i", "sugar-o"):
-                    plan.append((h, 1, make_case(g, pol, "csr", 0, "u32",
-                                                 casync=0)))
+                    add((h, 2, make_case(g, pol, "csr", 0, "u32")))
+                for pol in ("oec", "hivc", "cvc", "sugar-o"):
+                    add((h, 2, make_case(g, pol, "csc", 0, "u32")))
+        # symmetric-graph shortcut, read balancing, synchronous assignment
+        for g in struct:
+            sg = g.symmetrised()
+            for pol in SYM_CLASSES:
+                add((2, 1, make_case(sg, pol, "csr", 1, "u32")))
+            for pol in ("oec", "cvc", "ginger-o"):
+                for read in (0, 2):
+                    add((2, 1, make_case(g, pol, "csr", 0, "u32", read=read)))
+            for pol in ("ginger-o", "fennel-i", "sugar-o"):
+                add((3, 1, make_case(g, pol, "csr", 0, "u32", casync=0)))
+        # 4 hosts (2x2 cartesian grid; fewer nodes than hosts) and 1 host
         for g in struct + tiny:
             for pol in pols:
-                for out in ("csr", "csc"):
-                    plan.append((4, 1, make_case(g, pol, out, 0, "u32")))
-                    plan.append((1, 1, make_case(g, pol, out, 0, "u32")))
-        for g in [heavy_graph()]:
-            for pol in ("hovc", "hivc", "ginger-o", "ginger-i"):
-                for h in (2, 3):
-                    plan.append((h, 1, make_case(g, pol, "csr", 0, "u32")))
+                add((4, 1, make_case(g, pol, "csr", 0, "u32")))
+            for pol in ("oec", "iec", "hovc", "cvc", "ginger-o", "sugar-o"):
+                add((1, 1, make_case(g, pol, "csr", 0, "u32")))
+            for pol in ("cvc", "sugar-o", "hivc"):
+                add((4, 1, make_case(g, pol, "csc", 0, "void")))
+        # > 1000 out-edges: the hybrid cuts' high-degree branch
+        for pol in ("hovc", "hivc", "ginger-o", "ginger-i"):
+            for h in (2, 3):
+                add((h, 1, make_case(heavy_graph(), pol, "csr", 0, "u32")))
     else:
-        small3 = small_graphs(3, 3)
-        for h in (1, 2, 3):
+        small3 = small_graphs(3, 3)   # 259 graphs
+        # every graph n<=3, m<=3 x every policy, CSR, h in {2,3}
+        for h in (2, 3):
             for g in small3:
                 for pol in pols:
-                    for out in ("csr", "csc"):
-                        for ed in ("void", "u32"):
-                            plan.append((h, 1 if ed == "void" else 2,
-                                         make_case(g, pol, out, 0, ed)))
+                    add((h, 1, make_case(g, pol, "csr", 0, "void")))
+        # every graph n<=3, m<=2: CSC builds, uint32 data, 1 host
+        for g in small2:
+            for pol in pols:
+                for h in (2, 3):
+                    add((h, 1, make_case(g, pol, "csc", 0, "void")))
+                add((2, 2, make_case(g, pol, "csr", 0, "u32")))
+                add((3, 2, make_case(g, pol, "csc", 0, "u32")))
+                add((1, 1, make_case(g, pol, "csr", 0, "void")))
+        # structured graphs: full cross product of the options
+        big = struct + tiny + [heavy_graph()]
         for h in (1, 2, 3, 4):
-            for g in struct + tiny + [heavy_graph()]:
+            for g in big:
                 for pol in pols:
                     for out in ("csr", "csc"):
                         for ed in ("void", "u32"):
-                            for read in (1, 0, 2):
-                                plan.append((h, 1, make_case(
-                                    g, pol, out, 0, ed, read=read)))
+                            add((h, 1, make_case(g, pol, out, 0, ed)))
+                        for read in (0, 2):
+                            add((h, 1, make_case(g, pol, out, 0, "u32",
+                                                 read=read)))
                         if POLICIES[pol][0] in CUSTOM_MASTER:
-                            plan.append((h, 1, make_case(g, pol, out, 0, "u32",
-                                                         casync=0)))
-                            plan.append((h, 2, make_case(g, pol, out, 0, "u32",
-                                                         rounds=1)))
-            symg = [x.symmetrised() for x in struct + tiny + [heavy_graph()]]
-            for g in symg:
+                            add((h, 1, make_case(g, pol, out, 0, "u32",
+                                                 casync=0)))
+                            add((h, 2, make_case(g, pol, out, 0, "u32",
+                                                 rounds=1)))
+                sg = g.symmetrised()
                 for pol in SYM_CLASSES:
                     for ed in ("void", "u32"):
-                        plan.append((h, 1, make_case(g, pol, "csr", 1, ed)))
-        for h in (2, 3):
-            seen = set()
-            for g in small2:
-                sg = g.symmetrised()
-                if sg.key() in seen:
-                    continue
-                seen.add(sg.key())
-                for pol in SYM_CLASSES:
-                    plan.append((h, 1, make_case(sg, pol, "csr", 1, "u32")))
-            for g in small2:
-                for pol in pols:
-                    for read in (0, 2):
-                        plan.append((h, 1, make_case(g, pol, "csr", 0, "u32",
-                                                     read=read)))
+                        add((h, 1, make_case(sg, pol, "csr", 1, ed)))
+        # symmetric copies of the small graphs
+        seen = set()
+        for g in small2:
+            sg = g.symmetrised()
+            if sg.key() in seen:
+                continue
+            seen.add(sg.key())
+            for pol in SYM_CLASSES:
+                for h in (2, 3):
+                    add((h, 1, make_case(sg, pol, "csr", 1, "u32")))
     return plan
 
 
@@ -625,15 +700,23 @@ C18_MODES_ALL = "auto,bitset,offsets,gids,only"
 
 
 def c18_plan(tier):
+    """Every case = one partitioned graph on which the harness runs the whole
+    sync cross product (modes x reductions x write x read x bitset x
+    subsets)."""
     plan = []
     small2 = small_graphs(3, 2)
-    struct = structured_graphs()
+    struct = structured_graphs() + [fan_graph()]
     tiny = tiny_for_many_hosts()
     pols = list(POLICIES)
+    add = plan.append
+
+    def mk(g, pol, out, sym=0, capbits=7, forced="all"):
+        return make_case(g, pol, out, sym, "void", capbits=capbits,
+                         modes=C18_MODES_ALL, forced=forced)
     if tier == "quick":
-        # ~10 graphs chosen to cover: edge between blocks in both directions,
-        # self loop, parallel edges, isolated node, two edges into / out of
-        # one node, plus three structured graphs
+        # 9 small graphs chosen to cover: an edge between the hosts' blocks in
+        # either direction, self loop, parallel edges, isolated node, two
+        # edges into / out of one node, a 2-cycle across hosts
         names = ["n2m1_01", "n2m2_0110", "n3m1_02", "n3m2_0112", "n3m2_0121",
                  "n3m2_1020", "n3m2_0202", "n3m2_0022", "n3m2_1221"]
         gs = pick(small2, names)
@@ -641,49 +724,40 @@ def c18_plan(tier):
             for g in gs:
                 for pol in ("oec", "iec", "hovc", "cvc", "ginger-o",
                             "fennel-o", "sugar-o"):
-                    plan.append((h, 1, make_case(g, pol, "csr", 0, "void",
-                                                 capbits=7,
-                                                 modes=C18_MODES_ALL)))
+                    add((h, 1, mk(g, pol, "csr", forced="diag")))
                 for pol in ("oec", "hivc", "cvc-iec"):
-                    plan.append((h, 1, make_case(g, pol, "csc", 0, "void",
-                                                 capbits=7,
-                                                 modes=C18_MODES_ALL)))
+                    add((h, 1, mk(g, pol, "csc", forced="diag")))
         for h in (2, 3, 4):
             for g in pick(struct, ["path5", "instar5", "cycle4"]):
                 for pol, out in (("oec", "csr"), ("iec", "csr"),
                                  ("cvc", "csr"), ("cvc", "csc"),
                                  ("hovc", "csr"), ("ginger-i", "csr")):
-                    plan.append((h, 2 if h == 2 else 1, make_case(
-                        g, pol, out, 0, "void", capbits=5,
-                        modes=C18_MODES_ALL)))
+                    add((h, 2 if h == 2 else 1,
+                         mk(g, pol, out, capbits=5, forced="diag")))
+        # all encodings on all location pairs, bitsetData chosen automatically
+        add((2, 1, mk(fan_graph(), "oec", "csr", capbits=4)))
+        add((2, 1, mk(fan_graph(), "iec", "csr", capbits=4)))
         for g in pick(struct, ["path5", "cycle4"]):
-            plan.append((1, 1, make_case(g, "oec", "csr", 0, "void",
-                                         capbits=5, modes=C18_MODES_ALL)))
+            add((1, 1, mk(g, "oec", "csr", capbits=5)))
             sg = g.symmetrised()
             for pol in ("oec", "cvc", "hovc"):
-                plan.append((2, 1, make_case(sg, pol, "csr", 1, "void",
-                                             capbits=5,
-                                             modes=C18_MODES_ALL)))
+                add((2, 1, mk(sg, pol, "csr", sym=1, capbits=5)))
     else:
+        # every graph n<=3, m<=2 x every policy x CSR/CSC x h in {2,3}
         for h in (2, 3):
             for g in small2:
                 for pol in pols:
                     for out in ("csr", "csc"):
-                        plan.append((h, 1, make_case(g, pol, out, 0, "void",
-                                                     capbits=8,
-                                                     modes=C18_MODES_ALL)))
+                        add((h, 1, mk(g, pol, out, capbits=8, forced="diag")))
         for h in (1, 2, 3, 4):
             for g in struct + tiny:
                 for pol in pols:
                     for out in ("csr", "csc"):
-                        plan.append((h, 2 if h <= 2 else 1, make_case(
-                            g, pol, out, 0, "void", capbits=8,
-                            modes=C18_MODES_ALL)))
+                        add((h, 2 if h == 2 else 1,
+                             mk(g, pol, out, capbits=6)))
                 sg = g.symmetrised()
                 for pol in SYM_CLASSES:
-                    plan.append((h, 1, make_case(sg, pol, "csr", 1, "void",
-                                                 capbits=8,
-                                                 modes=C18_MODES_ALL)))
+                    add((h, 1, mk(sg, pol, "csr", sym=1, capbits=6)))
     return plan
 
 
@@ -789,10 +863,10 @@ def run_check(a, prop, tier, exe, workdir, deadline_at):
         plan = plan[:a.limit]
     reps = a.reps or (2 if tier == "quick" else 3)
     if prop == "C19":
-        per = lambda h, t: 400  # noqa: E731
+        per = lambda h, t: 64  # noqa: E731
         stall = 60
     else:
-        per = lambda h, t: 12  # noqa: E731
+        per = lambda h, t: 8  # noqa: E731
         stall = 120
     sessions = chunk_sessions(plan, reps, per)
     # round-robin the groups so sessions of different host counts mix
@@ -814,6 +888,7 @@ def run_check(a, prop, tier, exe, workdir, deadline_at):
     enc_total = {}
     unconfirmed = []
     crash_runs = {}  # cid -> runs that ended in a crash / hang
+    launch_failures = [0]
     next_sid = [len(sessions) + 1000]
 
     def cell_of(cid):
@@ -947,7 +1022,8 @@ def run_check(a, prop, tier, exe, workdir, deadline_at):
             log("# session %d ended abnormally outside a case: %s" %
                 (s.sid, diag["text"][-300:]))
             s.retries = getattr(s, "retries", 0) + 1
-            if s.retries > 2:
+            launch_failures[0] += 1
+            if s.retries > 3:
                 log("# giving up: mpirun sessions do not start")
                 raise SystemExit(2)
         if rest:
@@ -1042,6 +1118,9 @@ def run_check(a, prop, tier, exe, workdir, deadline_at):
     for (h, t), (sec, n) in sorted(runner.group_time.items()):
         log("# sessions h=%d t=%d: %d case runs in %.0f session-seconds "
             "(%.0f ms per case run)" % (h, t, n, sec, 1000.0 * sec / max(n, 1)))
+    if launch_failures[0]:
+        log("# %d mpirun launches failed or stalled in MPI_Init and were "
+            "repeated (machinery, not a verdict)" % launch_failures[0])
     for u in unconfirmed:
         log("# UNCONFIRMED %s in %s: %s" % (u["key"], u["case"], u["msg"]))
     log("# done: %s %s: %d distinct inputs x configs (%d planned), %d "
